@@ -40,7 +40,7 @@ KERNELS = {
     "C17": ["k_for_bounds", "k_if_dispatch"],
     "C36": ["k_comment_dispatch", "k_module_init"],
     "C37": ["k_do_use_prefix", "k_use_with"],
-    "C18": ["k_formal_args_eval"],
+    "C18": ["k_formal_args_eval", "k_callable_scopes"],
     "C20": ["k_bubble", "k_dest_start"],
     "C21": ["k_error_and_drop", "k_dest_start"],
     "C26": ["k_str_slice", "k_str_insert", "k_str_index_length"],
@@ -511,6 +511,14 @@ STRUCTURAL_PROBES["k_loop_scopes"] = [
     ("a { @each $k, $v in (p: 1, q: 2) { #{$k}: $v } }", "a { p: 1; q: 2; }"),
     ("a { @for $i from 1 through 2 { $t: $i * 2; b: $t } }", "a { b: 2; b: 4; }"),
     ("$n: 0; @while $n < 2 { $n: $n + 1 !global; a { b: $n } }", "a { b: 1; } a { b: 2; }"),
+]
+STRUCTURAL_PROBES["k_callable_scopes"] = [
+    ("$x: outer; @function f() { @return $x } a { $x: inner; b: f() }", "b: outer"),
+    ("$x: outer; @mixin m { c: $x } a { $x: inner; @include m }", "c: outer"),
+    ("@function f($a) { @return $a } $y: 2; a { $y: 3; b: f($y) }", "b: 3"),
+    ("@mixin m($a) { c: $a } $y: 2; a { $y: 3; @include m($y) }", "c: 3"),
+    ("@mixin m { & b { c: d } } a { @include m }", "a b { c: d; }"),
+    ("@function f() { @if true { @return 1 } @return 2 } a { b: f() }", "b: 1"),
 ]
 STRUCTURAL_PROBES["k_module_init"] = [
     (({"a.scss": '@use "lib";\n.main { c: d }\n', "_lib.scss": "/* hello */\n.lib { /* in rule */ a: b }\n"}, "[compressed]a.scss"), ".lib{a:b}.main{c:d}"),
